@@ -846,11 +846,16 @@ def d1_split_dimension_is_divisible(facts, rep):
         if fn.p not in (D1 + 'blocked_range2d::do_split', D1 + 'blocked_range3d::do_split'):
             continue
         splits = {}
-        for pos, s, node, d in calls_named(fn, ('do_split',)):
-            if (d.get('cls') or '').endswith('blocked_range') and node.get('a'):
-                dim = _dim_key(fn, node['a'][0], {})
+        # the dimension being split is the one whose my_begin receives the result (`my_X.my_begin = X_range_type::do_split(r.my_X, ...)`;
+        # that the argument names the same dimension is D2's business)
+        split_calls = dict((s, pos) for pos, s, node, d in calls_named(fn, ('do_split',)) if (d.get('cls') or '').endswith('blocked_range'))
+        for pos, s, l, r in assignments(fn):
+            rs = fn.strip(r)
+            ln_ = fn.n(fn.strip(l))
+            if rs in split_calls and ln_.get('k') == 'member' and ln_.get('n') == 'my_begin':
+                dim = _dim_key(fn, ln_.get('base', -1), {})
                 if dim:
-                    splits[pos] = (dim, node.get('ln'))
+                    splits[split_calls[rs]] = (dim, fn.n(rs).get('ln'))
         dims = sorted(set(v[0] for v in splits.values()))
         if len(dims) < 2:
             raise AnalysisBroken('%s: split sites of the dimensions not found (%s)' % (fn.q, dims))
